@@ -134,3 +134,34 @@ class ReachingDefs:
 
 def uses_in(e: ast.AST) -> set[str]:
     return {x.id for x in ast.walk(e) if isinstance(x, ast.Name) and isinstance(x.ctx, ast.Load)}
+
+
+def backward_slice(cfg: CFG, rd: "ReachingDefs", node: int, names: Iterable[str], max_depth: int = 12) -> tuple[set[tuple[int, str]], set[str]]:
+    """Flow-sensitive backward slice: the definitions (node, name) that may feed `names` at `node`,
+    and the names of all calls occurring in their right-hand sides."""
+    seen: set[tuple[int, str]] = set()
+    calls: set[str] = set()
+    todo = [(node, nm, 0) for nm in names]
+    while todo:
+        at, nm, d = todo.pop()
+        for dn in rd.defs_reaching(at, nm):
+            if (dn, nm) in seen:
+                continue
+            seen.add((dn, nm))
+            n = cfg.nodes[dn]
+            exprs: list[ast.AST] = []
+            if n.kind == "for":
+                exprs = [n.ast.iter]  # type: ignore[union-attr]
+            elif n.kind == "with":
+                exprs = [i.context_expr for i in n.ast.items]  # type: ignore[union-attr]
+            elif n.kind == "stmt" and isinstance(n.ast, (ast.Assign, ast.AnnAssign, ast.AugAssign)) and n.ast.value is not None:
+                exprs = [n.ast.value]
+            for e in exprs:
+                for x in ast.walk(e):
+                    if isinstance(x, ast.Call):
+                        f = x.func
+                        calls.add(f.id if isinstance(f, ast.Name) else f.attr if isinstance(f, ast.Attribute) else "")
+                if d < max_depth:
+                    for u in uses_in(e):
+                        todo.append((dn, u, d + 1))
+    return seen, calls
